@@ -7,8 +7,11 @@
 #include <stddef.h>
 #include <stdint.h>
 
-typedef struct { char *data; unsigned long len; } str;        /* data has len+1 bytes; data[len]==0 */
-typedef struct { const char *data; unsigned long len; } sv;
+/* id: ghost content class of the string (0 = unknown).  Two strings with the same non-zero id have the same bytes and
+   two strings with different non-zero ids have different bytes; shim copies propagate the id.  This lets contracts reason
+   about "the same key" without comparing bytes (DESIGN.md section 3, ghost-key projection). */
+typedef struct { char *data; unsigned long len; unsigned long id; } str;        /* data has len+1 bytes; data[len]==0 */
+typedef struct { const char *data; unsigned long len; unsigned long id; } sv;
 
 /* pending C++ exception (0 = none).  Classes: */
 extern int __exc;
@@ -30,6 +33,7 @@ double nondet_double(void);
 #define SHIM_ASSERT(c, msg) __CPROVER_assert((c), msg)
 /* ghost: allocations sized by input data must stay below this bound (set by the spec, e.g. the file size) */
 extern unsigned long g_alloc_bound;
+extern unsigned long g_vec_idx;   /* ghost element index used by vector models that move elements */
 void *malloc(unsigned long);
 void *memset(void *, int, unsigned long);
 
@@ -54,8 +58,18 @@ void *memset(void *, int, unsigned long);
   static inline T *vec_##M##_back(struct vec_##M *v) { SHIM_ASSERT(v->size > 0, "shim.vector.back.nonempty"); return &v->data[v->size - 1]; } \
   static inline T *vec_##M##_front(struct vec_##M *v) { SHIM_ASSERT(v->size > 0, "shim.vector.front.nonempty"); return &v->data[0]; } \
   static inline void vec_##M##_push_back(struct vec_##M *v, T x) { VEC_PUSH_BODY(T) } \
+  static inline void vec_##M##_emplace_slot(struct vec_##M *v) { SHIM_ASSERT(v->size < v->cap, "shim.vector.capacity_provided_by_precondition"); v->size = v->size + 1; } \
   static inline void vec_##M##_pop_back(struct vec_##M *v) { SHIM_ASSERT(v->size > 0, "shim.vector.pop_back.nonempty"); v->size = v->size - 1; } \
   static inline void vec_##M##_clear(struct vec_##M *v) { v->size = 0; } \
+  /* erase(pos): the elements behind pos move down by one.  Model: they become unconstrained except the one at the ghost \
+     index g_vec_idx, which gets its exact new value (DESIGN.md 1.1 ghost index) */ \
+  static inline T *vec_##M##_erase(struct vec_##M *v, T *pos) { \
+    SHIM_ASSERT(__CPROVER_same_object(pos, v->data) && pos >= v->data && pos < v->data + v->size, "shim.vector.erase.position_valid"); \
+    unsigned long idx = (unsigned long)(pos - v->data); unsigned long n = v->size; \
+    _Bool pin = g_vec_idx >= idx && g_vec_idx + 1 < n; T keep; if (pin) keep = v->data[g_vec_idx + 1]; \
+    if (n - idx > 1) __CPROVER_havoc_slice(pos, (n - idx - 1) * sizeof(T)); \
+    if (pin) v->data[g_vec_idx] = keep; \
+    v->size = n - 1; return pos; } \
   static inline void vec_##M##_reserve(struct vec_##M *v, unsigned long n) { \
     if (n > v->cap && v->size == 0) { SHIM_ASSERT(n <= g_alloc_bound, "shim.alloc.bounded_by_input"); \
       T *nd = (T *)malloc(n * sizeof(T)); __CPROVER_assume(nd != 0); v->data = nd; v->cap = n; } } \
@@ -79,6 +93,17 @@ void *memset(void *, int, unsigned long);
 #define RITER_PREDEC(p) ((p)->base = (p)->base + 1, (p))
 #define OPAQUE_DECL(M) struct opaque_##M { char __opaque; };
 
+/* opaque heap object: non-null pointer into nothing (dereferencing it fails the pointer checks) */
+void *nondet_ptr(void);
+static inline void *shim_opaque_ptr(void) { void *p = nondet_ptr(); __CPROVER_assume(p != 0); return p; }
+/* ---- std::chrono::system_clock::now(): nanoseconds, nondeterministic but monotone (ghost g_last_now) ---- */
+extern long g_last_now;
+static inline long shim_now_ns(void) { long t = nondet_long(); __CPROVER_assume(t >= g_last_now && t < ((long)1 << 62)); g_last_now = t; return t; }
+/* ---- std::atomic<bool>::compare_exchange (sequential model; weak form may fail spuriously) ---- */
+static inline _Bool shim_cas_bool(_Bool *obj, _Bool *expected, _Bool desired, int weak) {
+  if (*obj == *expected && !(weak && nondet_bool())) { *obj = desired; return 1; }
+  *expected = *obj; return 0; }
+static inline _Bool shim_xchg_bool(_Bool *obj, _Bool v) { _Bool o = *obj; *obj = v; return o; }
 /* ---- <cctype> : ASCII ("C" locale) ---- */
 static inline int shim_tolower(int c) { return (c >= 'A' && c <= 'Z') ? c + 32 : c; }
 static inline int shim_toupper(int c) { return (c >= 'a' && c <= 'z') ? c - 32 : c; }
